@@ -35,6 +35,21 @@ func goEnv() []string {
 	return append(env, "GOWORK=off", "GOFLAGS=-mod=readonly", "GOPROXY=off", "GOTOOLCHAIN=go1.25.5")
 }
 
+type modelDef struct {
+	Decl *ast.FuncDecl
+	Pkg  *packages.Package
+}
+
+// modelFor: the model a caller in package pk sees.
+func (fi *FuncInfo) modelFor(pk *packages.Package) (*ast.FuncDecl, *packages.Package) {
+	if pk != nil {
+		if m, ok := fi.Models[pk.PkgPath]; ok {
+			return m.Decl, m.Pkg
+		}
+	}
+	return fi.Model, fi.MPkg
+}
+
 type FuncKind int
 
 const (
@@ -85,6 +100,8 @@ type FuncInfo struct {
 	Kind  FuncKind
 	Spec  *Spec
 	Model *ast.FuncDecl // for KModel
+	// Models: one trusted model per spec package; a caller uses the model of its own package when there is one
+	Models map[string]modelDef
 	MPkg  *packages.Package
 	Loops []*LoopSpec
 	Ghost []*GhostSpec
@@ -212,8 +229,16 @@ func (p *Program) parseContractFile(pk *packages.Package, f *ast.File) {
 				}
 				if kind == "model" {
 					fi.Kind = KModel
-					fi.Model = owner
-					fi.MPkg = pk
+					if fi.Models == nil {
+						fi.Models = map[string]modelDef{}
+					}
+					fi.Models[pk.PkgPath] = modelDef{owner, pk}
+					// default (for callers in packages without a model of their own): the model of the
+					// alphabetically first package, so that the choice does not depend on load order
+					if fi.MPkg == nil || pk.PkgPath < fi.MPkg.PkgPath {
+						fi.Model = owner
+						fi.MPkg = pk
+					}
 					p.Trusted = append(p.Trusted, "model of "+fi.Key+" (inlined, trusted)")
 				} else {
 					fi.Kind = KContract
